@@ -35,7 +35,8 @@ RULE = ("history = event sequence over {key-addressed operation (get, set, delet
         "server's own error or 'All servers seem to be down' escape, nothing with ignore_exc. Non-trivial: a server "
         "went failing -> dead -> revived, or was probed again after a retry_timeout. Address styles: distinct hosts with int ports, or one host with ports 11211+i given as int for some servers and as text for others, or 'host:port' strings. Two users at once (turns at connect / send / receive / close, two calls each, four idle connections in the pool) while the server fails, its retry is due, its retries are used up or it is back after having been given up: only the server's error or 'all servers down' escapes, nothing with ignore_exc, and the rotation recovers. Operation incr_text makes a healthy server answer with an error line (optionally hanging up afterwards, dialect hangup-after-error): that is the call's error, not a server failure - an OSError counts as a server's own error only while a server is failing. Long lives: 1500 (thorough 6000) events on one client; operation get_many_big sends 4500 keys to one (failing) server in one call."
         + ' In the two-users part an outage is a server process that died: connections made before it stay dead (restarts_kill_connections); once the server is healthy and due back (phase given-up-and-back) no call may fail.'
-        + ' Given up late: a server that uses its retry budget up during an outage and is still in rotation when everything heals, a second server given up at another moment, recovery traffic every 0.9 / 3 / 7 / 13 / 29 s: placement is back within two dead_timeouts (D26).')
+        + ' Given up late: a server that uses its retry budget up during an outage and is still in rotation when everything heals, a second server given up at another moment, recovery traffic every 0.9 / 3 / 7 / 13 / 29 s: placement is back within two dead_timeouts (D26).'
+        + " Broadcasts in between: every sequence of up to 5 (thorough 6) events over {get on either server's key, set_many, +1.5 s, +61 s, server 0 down / up, flush_all} with a flush_all after the failure - flush_all reaches servers out of rotation too; its contacts do not count towards the probing bounds but what it finds is a failure like any other. Scripted back-end, order of events inside a call: a server that is in rotation is never taken out unless it failed since it was put (back) in.")
 MANIFEST = {
     "category": "exploration",
     "technique": "stateful model-based exploration of failure/recovery event sequences on a virtual clock: bounded-exhaustive to a depth bound over a reduced alphabet x all retry configurations, plus Hypothesis sequences; invariants over a contact log and a routing log observed through the client_class and hasher seams",
